@@ -1015,14 +1015,15 @@ fn execute(scn: &BScn, property: &str) -> RunOutcome {
                     // Off the exact grid the final evaluation may have happened within a rounding
                     // or two of the end instant ("in the band"): the component then holds the
                     // terminal values within float rounding of the evaluation time
-                    // (oracle::BAND_ULPS), unless the timeline approaches its end through a
+                    // (oracle::band_tolerance), unless the timeline approaches its end through a
                     // (near-)discontinuity. Past the band, and on the grid, the usual tolerance.
                     let firmly = total.map(|t| cfg.grid || pos_after_s > t + 1e-6 * t.abs().max(1e-3)).unwrap_or(false);
                     let in_band = !firmly && total.is_some();
                     if in_band {
                         out.count("probe.ended_inside_rounding_band_of_end_instant");
                     }
-                    if firmly || !oracle::steep_end(m) {
+                    let band_tol = oracle::band_tolerance(m);
+                    if firmly || band_tol.is_some() {
                         let va = vals_of(&after.comp);
                         let started_from = twin.as_ref().and_then(|t| t.start.clone()).unwrap_or_else(|| vals_of(&before.comp));
                         for prop in 0..4 {
@@ -1035,8 +1036,8 @@ fn execute(scn: &BScn, property: &str) -> RunOutcome {
                                 let close = if firmly {
                                     oracle::prop_close(actual, term, oracle::float_scale(m, prop, extra), 8.0)
                                 } else {
-                                    oracle::close_within_band(m, prop, actual, term, oracle::get_prop(&started_from, prop))
-                                        || oracle::close_within_band(m, prop, actual, term, oracle::get_prop(&vals_of(&before.comp), prop))
+                                    oracle::close_within_band(m, prop, actual, term, oracle::get_prop(&started_from, prop), band_tol.unwrap_or(0.0))
+                                        || oracle::close_within_band(m, prop, actual, term, oracle::get_prop(&vals_of(&before.comp), prop), band_tol.unwrap_or(0.0))
                                 };
                                 if !close {
                                     fail!("C18", "ended-without-terminal-values", "frame {fi}: animator reports Ended (position {:?}, total {:?}) but {} is {actual:?}; the timeline's terminal value is {term:?} (state before the frame: {state_base:?})", after.pos, total, PROP_NAMES[prop]);
